@@ -64,3 +64,31 @@ Theorem C18_k_void_counts :
   forall j, length (simplicesOfOrder r' j) = length (simplicesOfOrder r j) + (if j <=? k then binom (S (S k)) (S j) else 0).
 Proof. exact k_void_counts. Qed.
 Print Assumptions C18_k_void_counts.
+
+(* EVERY k, EVERY n, EVERY TARGET.  What k_skeleton(k) and ring(n) add when they succeed (GenEffect.plus r0 news fss r':
+   r' is r0 plus the simplices news -- all new, each once --, the i-th with order |fss_i| - 1 and faces fss_i, and every
+   simplex of r0 keeps its order and faces): k+1 new points and one new edge for each of the C(k+1, 2) pairs of them;
+   n > 2 new points p_0 .. p_(n-1) and the n edges {p_i, p_(i+1)}, {p_(n-1), p_0} *)
+From SV Require GenEffect GenFrame AttrInv Counts Shapes.
+Import ListNotations.
+Theorem C18_k_skeleton_on_any_target :
+  forall k r0 r', Shapes.sinv r0 -> k_skeleton k r0 = (r', Ok tt) ->
+  exists pts es, length pts = S k /\ length es = Counts.binom (S k) 2 /\
+    GenEffect.plus r0 (pts ++ es) (repeat [] (S k) ++ combs 2 pts) r'.
+Proof. exact GenEffect.k_skeleton_effect. Qed.
+Print Assumptions C18_k_skeleton_on_any_target.
+Theorem C18_ring_on_any_target :
+  forall n r0 r', Shapes.sinv r0 -> ring n r0 = (r', Ok tt) ->
+  2 < n /\ exists pts es, length pts = n /\ length es = n /\
+    GenEffect.plus r0 (pts ++ es)
+         (repeat [] n ++ map (fun i => [nth i pts (NInt 0); nth (S i) pts (NInt 0)]) (seq 0 (n - 1))
+                     ++ [[nth (n - 1) pts (NInt 0); nth 0 pts (NInt 0)]]) r'.
+Proof. exact GenEffect.ring_effect. Qed.
+Print Assumptions C18_ring_on_any_target.
+(* ... and whatever their outcome, every simplex the target had is still there with its order, position, faces, points
+   and attribute dictionary (the same object) *)
+Theorem C18_skeleton_and_ring_leave_the_target_alone :
+  (forall r0 k r' x, AttrInv.ainv r0 -> k_skeleton k r0 = (r', x) -> GenFrame.full_frame r0 r') /\
+  (forall r0 n r' x, AttrInv.ainv r0 -> ring n r0 = (r', x) -> GenFrame.full_frame r0 r').
+Proof. split; [exact GenFrame.k_skeleton_frame|exact GenFrame.ring_frame]. Qed.
+Print Assumptions C18_skeleton_and_ring_leave_the_target_alone.
